@@ -1,12 +1,818 @@
-// Package c12: correspondence harness of C12 (stub: replaced when C12 is built).
+// Package c12: prefix customisation only renames (translated plugin table, in-process sortPlugins
+// observations, end-to-end dispatch probes, and the renaming battery).
 package c12
 
 import (
+	"encoding/json"
 	"fmt"
+	"os"
+	"path/filepath"
+	"regexp"
+	"sort"
+	"strings"
+	"sync"
+
+	"github.com/awalterschulze/goderive/derive"
 
 	"verifharness/internal/hx"
 )
 
+type config struct {
+	Global    string      `json:"global"`
+	Overrides [][2]string `json:"overrides"`
+	Names     []string    `json:"names,omitempty"` // corpus: extra probe names
+	Kind      string      `json:"kind,omitempty"`
+}
+
+func (c config) flags() []string {
+	var fl []string
+	if c.Global != "derive" {
+		fl = append(fl, "-prefix="+c.Global)
+	}
+	if len(c.Overrides) > 0 {
+		var ps []string
+		for _, o := range c.Overrides {
+			ps = append(ps, o[0]+"="+o[1])
+		}
+		fl = append(fl, "-pluginprefix="+strings.Join(ps, ","))
+	}
+	return fl
+}
+
+func (c config) String() string { return strings.Join(c.flags(), " ") }
+
+// effective mirrors main.go (the harness's own statement, used only to render packages and to name
+// the plugin of a generated function; the verdicts come from the Coq model).
+func effective(t *Table, c config) []Plugin {
+	ov := map[string]string{}
+	for _, o := range c.Overrides {
+		ov[o[0]] = o[1]
+	}
+	out := make([]Plugin, len(t.Plugins))
+	for i, p := range t.Plugins {
+		q := p
+		q.Prefix = strings.Replace(p.Prefix, "derive", c.Global, 1)
+		if o, ok := ov[p.Name]; ok {
+			q.Prefix = o
+		}
+		out[i] = q
+	}
+	return out
+}
+
+// underscoreNested: name starts with two prefixes pa, pb with pb = pa + "_" + x: then pa's helper
+// candidates pa_… can coincide with names of pb.
+func underscoreNested(eff []Plugin, name string) bool {
+	for _, a := range eff {
+		for _, b := range eff {
+			if a.Name != b.Name && strings.HasPrefix(b.Prefix, a.Prefix+"_") && strings.HasPrefix(name, b.Prefix) {
+				return true
+			}
+		}
+	}
+	return false
+}
+
+func distinct(eff []Plugin) bool {
+	seen := map[string]bool{}
+	for _, p := range eff {
+		if seen[p.Prefix] {
+			return false
+		}
+		seen[p.Prefix] = true
+	}
+	return true
+}
+
+func nested(eff []Plugin) bool {
+	for i, a := range eff {
+		for j, b := range eff {
+			if i != j && strings.HasPrefix(b.Prefix, a.Prefix) {
+				return true
+			}
+		}
+	}
+	return false
+}
+
+// ---------- s-expressions ----------
+
+func sxPlugins(ps []Plugin) string {
+	var b strings.Builder
+	b.WriteByte('(')
+	for i, p := range ps {
+		if i > 0 {
+			b.WriteByte(' ')
+		}
+		b.WriteString("(" + hx.Bytes([]byte(p.Name)) + " " + hx.Bytes([]byte(p.Prefix)) + ")")
+	}
+	b.WriteByte(')')
+	return b.String()
+}
+
+func sxPairs(ps [][2]string) string {
+	var b strings.Builder
+	b.WriteByte('(')
+	for i, p := range ps {
+		if i > 0 {
+			b.WriteByte(' ')
+		}
+		b.WriteString("(" + hx.Bytes([]byte(p[0])) + " " + hx.Bytes([]byte(p[1])) + ")")
+	}
+	b.WriteByte(')')
+	return b.String()
+}
+
+func sxStrs(l []string) string {
+	var b strings.Builder
+	b.WriteByte('(')
+	for i, s := range l {
+		if i > 0 {
+			b.WriteByte(' ')
+		}
+		b.WriteString(hx.Bytes([]byte(s)))
+	}
+	b.WriteByte(')')
+	return b.String()
+}
+
+// ---------- prefix maps ----------
+
+var globals = []string{"derive", "d", "my", "generate", "deriveX", "X_", "derived", "gen_", "D", "", "deriv", "goderive"}
+var fresh = []string{"eq", "cmp", "hsh", "srt", "fm", "ky", "st", "mn", "mx", "uq", "ct", "cpy", "zz", "mak"}
+var exts = []string{"X", "Of", "_", "2", "s", "ed", "Set", "All"}
+
+// genConfig draws a prefix map. minCut is the shortest cut used for nesting overrides.
+func genConfig(r *hx.Rand, t *Table, kind string, minCut int) config {
+	c := config{Global: "derive", Kind: kind}
+	names := make([]string, len(t.Plugins))
+	for i, p := range t.Plugins {
+		names[i] = p.Name
+	}
+	switch kind {
+	case "global":
+		c.Global = globals[1+r.Intn(len(globals)-1)]
+		return c
+	case "mixed":
+		if r.Intn(2) == 0 {
+			c.Global = globals[r.Intn(len(globals))]
+		}
+	}
+	n := 1 + r.Intn(4)
+	if kind == "mixed" {
+		n = 1 + r.Intn(8)
+	}
+	for k := 0; k < n; k++ {
+		eff := effective(t, c)
+		i := r.Intn(len(eff))
+		j := r.Intn(len(eff))
+		var v string
+		mode := r.Intn(6)
+		if kind == "plain" {
+			mode = 0
+		}
+		if kind == "nested" && mode == 0 {
+			mode = 1 + r.Intn(4)
+		}
+		switch mode {
+		case 0:
+			v = fresh[r.Intn(len(fresh))]
+			if r.Intn(3) == 0 {
+				v += exts[r.Intn(len(exts))]
+			}
+		case 1, 2: // a proper prefix of another plugin's prefix
+			pj := eff[j].Prefix
+			if len(pj) <= minCut {
+				v = pj + "X"
+			} else {
+				v = pj[:minCut+r.Intn(len(pj)-minCut)]
+			}
+		case 3, 4: // another plugin's prefix is a proper prefix of this one
+			v = eff[j].Prefix + exts[r.Intn(len(exts))]
+		case 5:
+			if r.Intn(2) == 0 {
+				v = "derive"
+			} else {
+				v = c.Global
+			}
+		}
+		if !validIdent(v+"Z") || strings.ContainsAny(v, ",=") {
+			continue
+		}
+		c.Overrides = append(c.Overrides, [2]string{names[i], v})
+	}
+	return c
+}
+
+// ---------- running goderive ----------
+
+var addErr = regexp.MustCompile(`Add Error: ([A-Za-z0-9_]+):`)
+
+type worker struct {
+	dir string
+}
+
+func newWorker(cfg hx.Config, name string) (*worker, error) {
+	d := filepath.Join(cfg.Work, name)
+	if err := hx.Module(d); err != nil {
+		return nil, err
+	}
+	return &worker{dir: d}, nil
+}
+
+// run writes a.go, removes any derived.gen.go, runs goderive with the flags; returns the run and the output file.
+func (w *worker) run(bin string, src string, flags []string) (hx.RunResult, []byte) {
+	os.WriteFile(filepath.Join(w.dir, "a.go"), []byte(src), 0o644)
+	os.Remove(filepath.Join(w.dir, "derived.gen.go"))
+	res := hx.Goderive(bin, w.dir, append(append([]string{}, flags...), ".")...)
+	out, _ := os.ReadFile(filepath.Join(w.dir, "derived.gen.go"))
+	return res, out
+}
+
+type state struct {
+	cfg   hx.Config
+	meta  *hx.Meta
+	tbl   *Table
+	mu    sync.Mutex
+	runs  int
+	cases int
+	sortL, dispL, mintL []string
+}
+
+func (s *state) addLine(dst *[]string, l string) {
+	s.mu.Lock()
+	*dst = append(*dst, l)
+	s.mu.Unlock()
+}
+
+func (s *state) direct(class, what string, files map[string]string, cmd, output string) {
+	s.meta.AddDirect(hx.Direct{Class: class, What: what, Files: files, Cmd: cmd, Output: hx.Truncate(output, 6000)})
+}
+
+// ---------- A. sortPlugins in-process ----------
+
+func (s *state) sortObs(r *hx.Rand, n int) {
+	t := s.tbl
+	emit := func(ps []Plugin) {
+		dps := make([]derive.Plugin, len(ps))
+		for i, p := range ps {
+			dps[i] = derive.NewPlugin(p.Name, p.Prefix, nil)
+		}
+		derive.NewPlugins(dps, false, false) // sorts dps in place (sortPlugins)
+		idx := map[string]int{}
+		for i, p := range ps {
+			idx[p.Name] = i
+		}
+		order := make([]int, len(dps))
+		for i, p := range dps {
+			order[i] = idx[p.Name()]
+		}
+		s.addLine(&s.sortL, fmt.Sprintf("(sort %s %s)", sxPlugins(ps), hx.Ints(order)))
+		s.meta.CountSafe("sort-observations")
+	}
+	// the real table, as registered and in seeded permutations, under prefix maps
+	for k := 0; k < n; k++ {
+		kind := []string{"global", "plain", "nested", "mixed"}[k%4]
+		c := genConfig(r, t, kind, 1)
+		if k == 0 {
+			c = config{Global: "derive"}
+		}
+		eff := effective(t, c)
+		if !distinct(eff) {
+			s.meta.CountSafe("sort-duplicate-prefix-config-skipped")
+			continue
+		}
+		emit(eff)
+		perm := append([]Plugin{}, eff...)
+		hx.Shuffle(r, perm)
+		emit(perm)
+		rev := append([]Plugin{}, eff...)
+		sort.Slice(rev, func(i, j int) bool { return rev[i].Prefix < rev[j].Prefix })
+		emit(rev)
+	}
+	// small synthetic lists with heavy nesting and equal lengths (ties decided by byte order)
+	alpha := []string{"a", "b", "ab", "ba", "abc", "abd", "b_", "", "aB", "aa", "derive", "deriveS", "deriveSet", "deriveSort", "deriveSorted"}
+	for k := 0; k < n*2; k++ {
+		m := 1 + r.Intn(8)
+		seen := map[string]bool{}
+		var ps []Plugin
+		for len(ps) < m {
+			p := alpha[r.Intn(len(alpha))]
+			if r.Intn(3) == 0 {
+				p += alpha[r.Intn(len(alpha))]
+			}
+			if seen[p] {
+				continue
+			}
+			seen[p] = true
+			ps = append(ps, Plugin{Name: fmt.Sprintf("p%d", len(ps)), Prefix: p})
+		}
+		emit(ps)
+	}
+}
+
+// ---------- B. dispatch probes through the binary ----------
+
+func probeNames(r *hx.Rand, eff []Plugin, n int) []string {
+	var out []string
+	sfx := []string{"", "X", "_1", "Ints", "s", "ed", "Of", "0"}
+	for k := 0; k < n; k++ {
+		p := eff[r.Intn(len(eff))].Prefix
+		q := eff[r.Intn(len(eff))].Prefix
+		var name string
+		switch r.Intn(6) {
+		case 0, 1:
+			name = p + sfx[r.Intn(len(sfx))]
+		case 2:
+			if len(p) > 1 {
+				name = p[:len(p)-1-r.Intn(min(3, len(p)-1))]
+			}
+		case 3:
+			name = p + q
+		case 4:
+			if len(q) > 0 {
+				name = p + q[len(q)/2:]
+			}
+		case 5:
+			name = []string{"foo", "deriv", "Derive", "xderiveEqual", "derive", "deriveZz", "d"}[r.Intn(7)]
+		}
+		if validIdent(name) && name != "zzProbe" {
+			out = append(out, name)
+		}
+	}
+	return out
+}
+
+func (s *state) probe(w *worker, bin string, table []Plugin, c config, name string) {
+	src := "package p\n\nfunc zzProbe() {\n\t" + name + "()\n}\n"
+	res, out := w.run(bin, src, c.flags())
+	s.mu.Lock()
+	s.runs++
+	s.mu.Unlock()
+	real := -2
+	if m := addErr.FindStringSubmatch(res.Out); m != nil {
+		for i, p := range table {
+			if p.Name == m[1] {
+				real = i
+			}
+		}
+	} else if res.Exit == 0 && len(out) == 0 && !res.TimedOut {
+		real = -1
+	}
+	if real == -2 {
+		s.direct("probe-unexpected", "a call "+name+"() under ["+c.String()+"] neither produced an Add Error naming a registered plugin nor was ignored",
+			map[string]string{"a.go": src}, "goderive "+c.String()+" .", res.Out)
+		return
+	}
+	s.addLine(&s.dispL, fmt.Sprintf("(dispatch %s %s %s %s %d)", sxPlugins(table), hx.Bytes([]byte(c.Global)), sxPairs(c.Overrides), hx.Bytes([]byte(name)), real))
+}
+
+// ---------- C. the renaming battery ----------
+
+type battery struct {
+	spec    pkgSpec
+	defSrc  string
+	defOut  []byte
+	defCan  *output
+	defOK   bool
+}
+
+func (s *state) vet(dir string) (bool, string) {
+	res := hx.GoVet(dir, "")
+	return res.Exit == 0, res.Out
+}
+
+func (s *state) mintObs(o *output, eff []Plugin, userNames []string) {
+	user := map[string]bool{}
+	for _, n := range userNames {
+		user[n] = true
+	}
+	prefix := map[string]string{}
+	for _, p := range eff {
+		prefix[p.Name] = p.Prefix
+	}
+	for _, g := range o.Funcs {
+		if user[g.Name] || g.Plugin == "" {
+			continue
+		}
+		var taken []string
+		for _, h := range o.Funcs {
+			// every other function of the file: the plugin's own table decides on the pinned tree (other
+			// plugins' names never coincide with a candidate unless the output is already broken); with
+			// package-wide name reservation the other plugins' names count too
+			if h.Name != g.Name {
+				taken = append(taken, h.Name)
+			}
+		}
+		taken = append(taken, calledUserFuncs...)
+		s.addLine(&s.mintL, fmt.Sprintf("(mint %s %s %s %s)", hx.Bytes([]byte(prefix[g.Plugin])), hx.Bytes([]byte(g.TyName)), sxStrs(taken), hx.Bytes([]byte(g.Name))))
+	}
+}
+
+func (s *state) runBattery(w *worker, bin string, b *battery, c config, label string) {
+	t := s.tbl
+	eff := effective(t, c)
+	src, names, why := b.spec.render(eff)
+	if why != "" {
+		s.meta.CountSafe("battery-skipped: package not expressible under the map")
+		return
+	}
+	res, out := w.run(bin, src, c.flags())
+	s.mu.Lock()
+	s.runs++
+	s.cases++
+	s.mu.Unlock()
+	files := map[string]string{"a.go": src, "default/a.go": b.defSrc, "default/derived.gen.go": string(b.defOut), "derived.gen.go": string(out)}
+	cmd := "goderive " + c.String() + " ."
+	s.meta.CountSafe("battery/" + label)
+	if res.Exit != 0 || res.TimedOut || len(out) == 0 {
+		s.direct("renamed-run-fails", "goderive succeeds on the default-named package but not on the renamed one under ["+c.String()+"]", files, cmd, res.Out)
+		return
+	}
+	o, err := parseOutput(out, eff, nil)
+	if err != nil {
+		s.direct("renamed-run-unparsable", "derived.gen.go of the renamed run does not parse under ["+c.String()+"]", files, cmd, err.Error())
+		return
+	}
+	// helpers (functions no call site names) carry the prefix of the plugin that minted them, which under
+	// nesting need not be the longest matching prefix: attribute them to a matching plugin that has this
+	// signature in the default run
+	if nested(eff) {
+		userName := map[string]bool{}
+		for _, n := range names {
+			userName[n] = true
+		}
+		defKeys := map[string]bool{}
+		for _, g := range b.defCan.Funcs {
+			defKeys[g.Key] = true
+		}
+		attrib := map[string]string{}
+		for _, g := range o.Funcs {
+			if userName[g.Name] || defKeys[g.Key] {
+				continue
+			}
+			for _, cand := range candidates(eff, g.Name) {
+				if defKeys[cand+sigOf(g.Key)] {
+					attrib[g.Name] = cand
+					break
+				}
+			}
+		}
+		if len(attrib) > 0 {
+			if o2, err := parseOutput(out, eff, attrib); err == nil {
+				o = o2
+				s.meta.CountSafe("battery/helper-attributed-to-shorter-prefix")
+			}
+		}
+	}
+	// one name, two functions: a helper minted by one plugin (prefix_...) collides with a name of a plugin
+	// whose prefix extends that prefix by "_..."
+	seenFn := map[string]bool{}
+	for _, g := range o.Funcs {
+		if seenFn[g.Name] {
+			class := "duplicate-function"
+			if underscoreNested(eff, g.Name) {
+				class = "helper-name-claimed-by-other-plugin"
+			}
+			s.direct(class, "function "+g.Name+" is generated twice (redeclared) under ["+c.String()+"]; the default-named package is fine", files, cmd,
+				"func "+g.Name+" redeclared in derived.gen.go")
+			return
+		}
+		seenFn[g.Name] = true
+	}
+	// every call site has its function
+	for _, n := range names {
+		if o.ByName[n] == nil {
+			s.direct("call-without-function", "no function "+n+" was generated under ["+c.String()+"]", files, cmd, "")
+			return
+		}
+	}
+	if d := diffCanon(b.defCan, o); d != "" {
+		s.direct("renamed-run-differs", "generated functions differ from the default run beyond renaming under ["+c.String()+"]", files, cmd, d)
+		return
+	}
+	if len(c.Overrides) == 0 {
+		want := mapGlobal(string(b.defOut), c.Global)
+		if want != string(out) {
+			s.direct("global-prefix-not-textual", "derived.gen.go under -prefix="+c.Global+" is not the default output with derive… renamed", files, cmd, firstDiff(want, string(out)))
+			return
+		}
+		s.meta.CountSafe("battery/textual-identity-checked")
+	}
+	if ok, vo := s.vet(w.dir); !ok && b.defOK {
+		s.direct("renamed-run-vet", "go vet passes on the default run but fails on the renamed run under ["+c.String()+"]", files, cmd, vo)
+		return
+	}
+	s.mintObs(o, eff, names)
+	s.meta.Sample(fmt.Sprintf("%s: %d calls, %d functions, [%s] -> same classes and bodies as the default run", label, len(names), len(o.Funcs), c.String()))
+}
+
+func firstDiff(a, b string) string {
+	al, bl := strings.Split(a, "\n"), strings.Split(b, "\n")
+	for i := 0; i < len(al) && i < len(bl); i++ {
+		if al[i] != bl[i] {
+			return fmt.Sprintf("line %d:\n want %s\n got  %s", i+1, al[i], bl[i])
+		}
+	}
+	return fmt.Sprintf("length differs: %d vs %d lines", len(al), len(bl))
+}
+
+func (s *state) prepare(w *worker, bin string, spec pkgSpec) (*battery, bool) {
+	t := s.tbl
+	c := config{Global: "derive"}
+	eff := effective(t, c)
+	src, names, why := spec.render(eff)
+	if why != "" {
+		s.meta.Notes = append(s.meta.Notes, "package not expressible under the default table: "+why)
+		return nil, false
+	}
+	res, out := w.run(bin, src, nil)
+	s.runs++
+	if res.Exit != 0 || len(out) == 0 {
+		s.direct("default-run-fails", "goderive fails on a battery package under the default prefixes", map[string]string{"a.go": src}, "goderive .", res.Out)
+		return nil, false
+	}
+	o, err := parseOutput(out, eff, nil)
+	if err != nil {
+		s.direct("default-run-unparsable", "default derived.gen.go does not parse", map[string]string{"a.go": src, "derived.gen.go": string(out)}, "goderive .", err.Error())
+		return nil, false
+	}
+	ok, vo := s.vet(w.dir)
+	if !ok {
+		s.direct("default-run-vet", "go vet fails on a battery package under the default prefixes", map[string]string{"a.go": src, "derived.gen.go": string(out)}, "goderive . && go vet .", vo)
+	}
+	s.mintObs(o, eff, names)
+	s.meta.CountSafe("battery/default")
+	return &battery{spec: spec, defSrc: src, defOut: out, defCan: o, defOK: ok}, true
+}
+
+// ---------- D. a goderive whose plugins are registered in another order ----------
+
+var listRe = regexp.MustCompile(`(?s)(\[\]derive\.Plugin\{\n)(.*?)(\n\t\})`)
+
+func (s *state) buildPermuted(r *hx.Rand, k int) (string, []Plugin, error) {
+	src, err := os.ReadFile(filepath.Join(s.cfg.Repo, "main.go"))
+	if err != nil {
+		return "", nil, err
+	}
+	m := listRe.FindSubmatchIndex(src)
+	if m == nil {
+		return "", nil, fmt.Errorf("registration list not found textually in main.go")
+	}
+	lines := strings.Split(string(src[m[4]:m[5]]), "\n")
+	if len(lines) != len(s.tbl.Plugins) {
+		return "", nil, fmt.Errorf("registration list has %d lines for %d plugins", len(lines), len(s.tbl.Plugins))
+	}
+	perm := make([]int, len(lines))
+	for i := range perm {
+		perm[i] = i
+	}
+	if k == 0 { // the reverse order first, then seeded shuffles
+		for i := range perm {
+			perm[i] = len(lines) - 1 - i
+		}
+	} else {
+		hx.Shuffle(r, perm)
+	}
+	nl := make([]string, len(lines))
+	tbl := make([]Plugin, len(lines))
+	for i, j := range perm {
+		nl[i] = lines[j]
+		tbl[i] = s.tbl.Plugins[j]
+	}
+	out := string(src[:m[4]]) + strings.Join(nl, "\n") + string(src[m[5]:])
+	dir := filepath.Join(s.cfg.Work, fmt.Sprintf("perm%d", k))
+	os.MkdirAll(dir, 0o755)
+	sum, _ := os.ReadFile(filepath.Join(s.cfg.Repo, "go.sum"))
+	mod, err := modulePath(s.cfg.Repo)
+	if err != nil {
+		return "", nil, err
+	}
+	gomod := fmt.Sprintf("module permuted\n\ngo 1.24\n\nrequire %s v0.0.0\n\nreplace %s => %s\n", mod, mod, s.cfg.Repo)
+	hx.WriteFiles(dir, map[string]string{"main.go": out, "go.mod": gomod, "go.sum": string(sum)})
+	bin := filepath.Join(dir, "goderive-permuted")
+	res := hx.GoBuild(dir, bin, "")
+	if res.Exit != 0 {
+		return "", nil, fmt.Errorf("building goderive with a permuted registration list failed:\n%s", res.Out)
+	}
+	return bin, tbl, nil
+}
+
+// ---------- Run ----------
+
 func Run(cfg hx.Config) (*hx.Meta, error) {
-	return nil, fmt.Errorf("C12: harness not built yet")
+	meta := &hx.Meta{Property: "C12", Seed: cfg.Seed, Tier: cfg.Tier}
+	if abs, err := filepath.Abs(cfg.Work); err == nil {
+		cfg.Work = abs
+	}
+	if abs, err := filepath.Abs(cfg.Out); err == nil {
+		cfg.Out = abs
+	}
+	r := hx.NewRand(cfg.Seed)
+	tbl, err := ReadTable(cfg.Repo)
+	if err != nil {
+		return nil, fmt.Errorf("translator: %v", err)
+	}
+	if err := os.WriteFile(filepath.Join(cfg.Out, "TableGen.v"), []byte(tbl.CoqTerm()), 0o644); err != nil {
+		return nil, err
+	}
+	tj, _ := json.MarshalIndent(tbl, "", " ")
+	os.WriteFile(filepath.Join(cfg.Out, "table.json"), tj, 0o644)
+	s := &state{cfg: cfg, meta: meta, tbl: tbl}
+	thorough := cfg.Tier == "thorough"
+
+	nSort, nCfg, nNames, nPkg, nBatCfg, nPerm := 24, 40, 12, 4, 14, 1
+	if thorough {
+		nSort, nCfg, nNames, nPkg, nBatCfg, nPerm = 200, 300, 24, 30, 40, 3
+	}
+
+	// A
+	s.sortObs(r.Fork(1), nSort)
+
+	// corpus + generated prefix maps
+	var corpus []config
+	if ents, err := os.ReadDir(cfg.Corpus); err == nil {
+		for _, e := range ents {
+			if !strings.HasSuffix(e.Name(), ".json") {
+				continue
+			}
+			b, err := os.ReadFile(filepath.Join(cfg.Corpus, e.Name()))
+			if err != nil {
+				continue
+			}
+			var cs []config
+			if json.Unmarshal(b, &cs) == nil {
+				for i := range cs {
+					cs[i].Kind = "corpus"
+				}
+				corpus = append(corpus, cs...)
+			}
+		}
+	}
+	meta.Distribution = map[string]int{"corpus-prefix-maps": len(corpus)}
+
+	const W = 8
+	workers := make([]*worker, W)
+	for i := range workers {
+		w, err := newWorker(cfg, fmt.Sprintf("w%d", i))
+		if err != nil {
+			return nil, err
+		}
+		workers[i] = w
+	}
+
+	// B: probes
+	type job struct {
+		bin   string
+		table []Plugin
+		c     config
+		name  string
+	}
+	var jobs []job
+	rb := r.Fork(2)
+	kinds := []string{"global", "plain", "nested", "nested", "mixed"}
+	var cfgs []config
+	cfgs = append(cfgs, config{Global: "derive", Kind: "default"})
+	cfgs = append(cfgs, corpus...)
+	for k := 0; k < nCfg; k++ {
+		cfgs = append(cfgs, genConfig(rb, tbl, kinds[k%len(kinds)], 1))
+	}
+	for _, c := range cfgs {
+		eff := effective(tbl, c)
+		if !distinct(eff) {
+			meta.Count("probe-map-with-duplicate-prefix-skipped")
+			continue
+		}
+		meta.Count("probe-map/" + c.Kind)
+		if nested(eff) {
+			meta.Count("probe-map-nested")
+		}
+		names := append(probeNames(rb, eff, nNames), c.Names...)
+		if c.Kind == "default" {
+			for _, p := range eff { // every plugin answers to its default prefix (cross-check of the translated table)
+				names = append(names, p.Prefix, p.Prefix+"X")
+			}
+		}
+		for _, n := range names {
+			jobs = append(jobs, job{cfg.Goderive, tbl.Plugins, c, n})
+		}
+	}
+	// D: permuted registration
+	type permBin struct {
+		bin string
+		tbl []Plugin
+	}
+	var perms []permBin
+	rp := r.Fork(3)
+	for k := 0; k < nPerm; k++ {
+		bin, ptbl, err := s.buildPermuted(rp, k)
+		if err != nil {
+			return nil, err
+		}
+		perms = append(perms, permBin{bin, ptbl})
+		for ci, c := range cfgs {
+			if ci%3 != k%3 && !thorough {
+				continue
+			}
+			eff := effective(tbl, c)
+			if !distinct(eff) {
+				continue
+			}
+			for _, n := range probeNames(rp, eff, nNames/2) {
+				jobs = append(jobs, job{bin, ptbl, c, n})
+				meta.Count("probe-permuted-registration")
+			}
+		}
+	}
+	// one directory per worker: run jobs in W stripes
+	var wg sync.WaitGroup
+	for wi := 0; wi < W; wi++ {
+		wg.Add(1)
+		go func(wi int) {
+			defer wg.Done()
+			for i := wi; i < len(jobs); i += W {
+				j := jobs[i]
+				s.probe(workers[wi], j.bin, j.table, j.c, j.name)
+			}
+		}(wi)
+	}
+	wg.Wait()
+	meta.Distribution["dispatch-probes"] = len(jobs)
+
+	// C: battery
+	rc := r.Fork(4)
+	var bats []*battery
+	for k := 0; k < nPkg; k++ {
+		spec := genPkg(rc, k < len(declVariants))
+		if k < len(declVariants) {
+			spec.variant = k
+		}
+		if b, ok := s.prepare(workers[0], cfg.Goderive, spec); ok {
+			bats = append(bats, b)
+		}
+	}
+	type bjob struct {
+		b     *battery
+		c     config
+		bin   string
+		label string
+	}
+	var bjobs []bjob
+	fixedGlobals := []string{"d", "generate", "deriveX", "my", ""}
+	for bi, b := range bats {
+		for gi, g := range fixedGlobals {
+			if !thorough && (gi+bi)%2 == 1 && bi > 0 {
+				continue
+			}
+			bjobs = append(bjobs, bjob{b, config{Global: g}, cfg.Goderive, "global"})
+		}
+		for _, c := range corpus {
+			bjobs = append(bjobs, bjob{b, c, cfg.Goderive, "corpus"})
+		}
+		for k := 0; k < nBatCfg; k++ {
+			kind := []string{"plain", "nested", "nested", "mixed", "global"}[k%5]
+			c := genConfig(rc, tbl, kind, 3)
+			if !distinct(effective(tbl, c)) {
+				continue
+			}
+			bjobs = append(bjobs, bjob{b, c, cfg.Goderive, kind})
+		}
+		for pi, p := range perms {
+			bjobs = append(bjobs, bjob{b, config{Global: "derive"}, p.bin, fmt.Sprintf("permuted-registration-%d", pi)})
+			c := genConfig(rc, tbl, "nested", 3)
+			if distinct(effective(tbl, c)) {
+				bjobs = append(bjobs, bjob{b, c, p.bin, fmt.Sprintf("permuted-registration-%d/nested", pi)})
+			}
+		}
+	}
+	for wi := 0; wi < W; wi++ {
+		wg.Add(1)
+		go func(wi int) {
+			defer wg.Done()
+			for i := wi; i < len(bjobs); i += W {
+				j := bjobs[i]
+				s.runBattery(workers[wi], j.bin, j.b, j.c, j.label)
+			}
+		}(wi)
+	}
+	wg.Wait()
+
+	write := func(name string, lines []string) {
+		if len(lines) == 0 {
+			return
+		}
+		sort.Strings(lines)
+		p := filepath.Join(cfg.Out, name)
+		os.WriteFile(p, []byte(strings.Join(lines, "\n")+"\n"), 0o644)
+		meta.ObsFiles = append(meta.ObsFiles, p)
+	}
+	write("sort.obs", s.sortL)
+	write("dispatch.obs", s.dispL)
+	write("mint.obs", s.mintL)
+	meta.Packages = len(bats)
+	meta.GoderiveRuns = s.runs
+	meta.Cases = s.cases
+	extra, _ := json.Marshal(map[string]int{"direct_cases": s.cases})
+	os.WriteFile(filepath.Join(cfg.Out, "c12-extra.json"), extra, 0o644)
+	return meta, nil
 }
